@@ -13,7 +13,7 @@ pub struct C04Oracle {
 }
 
 /// judge one executed withdrawal (also used by C20 on forks)
-pub fn judge_withdraw(w: &World, rec: &StepRecord, pair: usize, a: u128, holder: &str, idx: usize, classes: &mut Vec<&'static str>) -> Result<bool, String> {
+pub fn judge_withdraw(w: &World, rec: &StepRecord, pair: usize, a: u128, holder: &str, owner: &str, idx: usize, classes: &mut Vec<&'static str>) -> Result<bool, String> {
     let pr = &w.pairs[pair];
     if !rec.outcome.is_ok() {
         classes.push("w:rejected");
@@ -50,7 +50,11 @@ pub fn judge_withdraw(w: &World, rec: &StepRecord, pair: usize, a: u128, holder:
         add_delta(&mut expected, holder, &pr.infos[i], x as i128);
         add_delta(&mut expected, pr.addr.as_str(), &pr.infos[i], -(x as i128));
     }
-    add_delta(&mut expected, holder, &lp, -(a as i128));
+    // (the LP tokens leave their owner: the holder itself, or the account whose allowance the holder spends)
+    add_delta(&mut expected, owner, &lp, -(a as i128));
+    if owner != holder {
+        classes.push("w:delivered-through-SendFrom");
+    }
     if let Some(d) = diff_deltas(&expected, &actual) {
         return Err(format!("step {}: withdrawal of {} LP by {}: {}", idx, a, holder, d));
     }
@@ -63,7 +67,7 @@ pub fn judge_withdraw(w: &World, rec: &StepRecord, pair: usize, a: u128, holder:
 
 impl StepOracle for C04Oracle {
     fn on_step(&mut self, cx: &mut StepCtx, classes: &mut Vec<&'static str>) -> Verdict {
-        if let Intent::Withdraw { pair, amount, holder } = cx.intent {
+        if let Intent::Withdraw { pair, amount, holder, owner } = cx.intent {
             let (r0, r1, s) = pool_in(cx.world, &cx.rec.before, *pair);
             if cx.rec.outcome.is_ok() {
                 if r0.max(r1) > s.saturating_mul(1 << 20) {
@@ -73,7 +77,7 @@ impl StepOracle for C04Oracle {
                     classes.push("shape:supply>>reserve");
                 }
             }
-            match judge_withdraw(cx.world, cx.rec, *pair, *amount, holder, cx.index, classes) {
+            match judge_withdraw(cx.world, cx.rec, *pair, *amount, holder, owner, cx.index, classes) {
                 Ok(nt) => {
                     if nt {
                         self.nontrivial += 1;
